@@ -326,6 +326,14 @@ theorem packages_recorded (api : Api) (tr : Transports) :
     (gapicMetadata api tr).protoPackage = api.protoPackage ∧
     (gapicMetadata api tr).libraryPackage = joinDot (api.ns ++ [api.versionedModule]) := ⟨rfl, rfl⟩
 
+/-- **A library without a namespace part** (`naming.module_namespace == ()`: proto package `<name>.<version>`, no
+namespace option): the library package is the versioned module name itself — the top-level directory the library
+is emitted into —, nothing (no separator) is put in front of it. -/
+theorem library_package_no_namespace (api : Api) (tr : Transports) (h : api.ns = []) :
+    (gapicMetadata api tr).libraryPackage = api.versionedModule := by
+  show joinDot (api.ns ++ [api.versionedModule]) = api.versionedModule
+  rw [h]; rfl
+
 /-- the class names the library package exports are pairwise distinct
 (fails e.g. for services `Foo` and `FooAsync`: both own a `FooAsyncClient`) -/
 abbrev ClassNamesDistinct (api : Api) (tr : Transports) : Prop := ((emittedClasses api tr).map (·.1)).Nodup
@@ -480,6 +488,12 @@ example : (gapicMetadata apiEx [sRest]).rows.map (fun r => (r.kind, r.client, r.
      (sRest, "BaseLibraryClient".toList, "_import_".toList)] := by decide
 
 example : (gapicMetadata apiEx [sGrpc]).libraryPackage = "acme.lib_v1".toList := by decide
+
+/-- the same API as a library without a namespace part (proto package `mollusca.v1`) -/
+def apiNoNs : Api := ⟨"mollusca.v1".toList, [], "mollusca_v1".toList, [sLibrary, sArchive]⟩
+example : apiNoNs.ns = [] := rfl
+example : (gapicMetadata apiNoNs [sGrpc, sRest]).libraryPackage = "mollusca_v1".toList := by decide
+example : (gapicMetadata apiNoNs [sGrpc, sRest]).rows = (gapicMetadata apiEx [sGrpc, sRest]).rows := by decide
 
 example : fixupTable apiEx =
     [("get_book".toList, ["name".toList, "parent".toList, "filter".toList, "class_".toList]),
